@@ -6,10 +6,10 @@ If `A₀ w = g` on the grid, then
   (Dirichlet inner boundary, elliptic data) the code-level sweep of `(f + g, x + w)` returns `y + w` as an ARRAY;
 * the residual array of `(f + g, x + w)` is the residual array of `(f, x)`;
 * `(x + w) += e` is `(x += e) + w`;
-hence (`Cycle.cyc_shift`) one cycle of the concrete model commutes with the shift.
+hence (`MGCycle.cyc_shift`) one cycle of the concrete model commutes with the shift.
 -/
 namespace Concrete
-open Stencil Scalar Cycle Smoother
+open Stencil Scalar MGCycle Smoother
 
 section AnyField
 variable {K : Type} [_root_.Field K]
